@@ -2,6 +2,7 @@ SPECIFICATION Spec
 CONSTANTS
   Denoms = {"eth"}
   Mods <- ModsAcceptAll
+  AddrMode = "simple"
   MaxTx = 1
   Fuel = 3
   Level = 1
